@@ -661,10 +661,17 @@ pub fn run_case(c: &ReqCase, fam: &str, out: &mut CaseOut) -> String {
             argv.push(name.clone());
         }
     }
-    let reply = encode_reply(&[], &[]);
-    sc.gens.push(Gen { name: "capture".into(), install: Install::Script(Script(vec![Step::ReadAll, Step::Stdout(reply), Step::Exit(0)])) });
-    argv.push("-G".into());
-    argv.push(gen_spec("{gen0}", &c.args));
+    // three generators: the case's argument list, a different one, and none - each must receive the same request
+    // followed by its own arguments only
+    let lists = arg_lists();
+    let others: [Vec<(String, String)>; 2] = [lists[(c.args.len() + 1) % lists.len()].clone(), vec![]];
+    let all_args: [&Vec<(String, String)>; 3] = [&c.args, &others[0], &others[1]];
+    for (gi, a) in all_args.iter().enumerate() {
+        let reply = encode_reply(&[], &[]);
+        sc.gens.push(Gen { name: format!("capture{gi}"), install: Install::Script(Script(vec![Step::ReadAll, Step::Stdout(reply), Step::Exit(0)])) });
+        argv.push("-G".into());
+        argv.push(gen_spec(&format!("{{gen{gi}}}"), a));
+    }
     sc.argv = argv;
     out.steps += 1;
     let obs = run(&sc, Duration::from_secs(20));
@@ -685,6 +692,28 @@ pub fn run_case(c: &ReqCase, fam: &str, out: &mut CaseOut) -> String {
         out.violate(format!("c08/{fam}/arguments-suffix"), format!("the generator's stdin does not end with the encoding of its own arguments {:?}: tail {}\n{}", c.args, show_bytes(&stdin[stdin.len().saturating_sub(80)..]), describe()));
         return "bad-args".into();
     };
+    // the other two generators: the identical request, then their own arguments and nothing else
+    for gi in 1..3 {
+        let Some(si) = obs.gens.get(gi).and_then(|g| g.stdin.clone()) else {
+            out.violate(format!("c08/{fam}/generator-not-run"), format!("generator {gi} received nothing: {}", describe()));
+            return "no-stdin".into();
+        };
+        match split_request(&si, all_args[gi]) {
+            Some(r) if r == request => {}
+            Some(_) => {
+                out.violate(format!("c08/{fam}/request-differs-between-generators"), format!("generator {gi} did not receive the same request as generator 0\n{}", describe()));
+                return "request-differs".into();
+            }
+            None => {
+                let extra = si.len() as i64 - request.len() as i64;
+                out.violate(
+                    format!("c08/{fam}/arguments-suffix-of-a-later-generator"),
+                    format!("generator {gi}'s stdin ({} bytes, request is {} bytes, so {extra} bytes follow it) does not end with the encoding of its own arguments {:?}: tail {}\n{}", si.len(), request.len(), all_args[gi], show_bytes(&si[si.len().saturating_sub(80)..]), describe()),
+                );
+                return "bad-args".into();
+            }
+        }
+    }
     let (sources, references) = match decode_request(&request) {
         Ok(x) => x,
         Err(e) => {
